@@ -144,7 +144,21 @@ OPT_IN classes (never produced unless listed in ``allow``; each is tied to a kno
         class "rich-operators".  EXPR_CHARS / eval_expression(text, env) are the model's reading of an expression
     "many-symbols": once per closure 11-16 small constants <STEM>_1 .. <STEM>_k plus one constant whose expression names all of them;
         array lengths that name all of them; class "many-symbols" (problems() then waives its own ten-symbol rule)
-    "string-control": string constants with real control characters (line break, tab, carriage return, form feed); class "string-control"
+    "string-control": string constants with real control characters (line break, tab, carriage return, form feed); class "string-control";
+        since round 7 also (class "string-yamlish") texts of several lines whose lines look like YAML to a line-by-line reader (host:port,
+        http://..., 12:30, key: value, - item, # text, block / flow indicators, document markers, anchors, tags, leading / trailing blanks)
+        and the same look-alikes on one line; build_string_cover_program(import_coredefs=False, part=None, parts=1) is a closure with EVERY
+        text of the string vocabulary (plus metadata texts of several lines)
+    "cross-namespace-names": add_cross_namespace_names(program, ch, n=None): 1-4 new definitions whose NAME is in use in another
+        namespace of the closure or of the imported core definitions (CROSS_NAMESPACE: module id like message / signal / struct / constant /
+        string constant / alias / host id; host id like message / signal / module id; message, signal like module id / host id; struct,
+        constant, string constant, alias like module id); well-formed; classes "cross-namespace-names", "cross-namespace/<kind>-like-<kind>",
+        "cross-namespace/core|user"; build_cross_namespace_cover_program(import_coredefs=True) has every combination
+    "backend-literal-names": add_backend_literal_names(program, ch, which=None): a message / signal called MM_ERROR, MM_INFO or DEBUG_TEXT
+        (MATLAB_LITERAL_MESSAGES: the MATLAB back end writes those itself) or a struct / alias / message called ``string`` (JS_PSEUDO_TYPES)
+        used as a field type; well-formed; classes "backend-literal-names", "backend-literal/matlab-<kind>", "backend-literal/js-<kind>"
+    HYGIENE kinds "host-shares-name/<...>" (round 7): a host id that shares its name with a constant / string constant / alias / struct of
+        the closure or of the core definitions (the Python module writes all five under their bare name); hygiene_needs_core(kind)
     HYGIENE (not an ``allow`` class): add_hygiene(program, ch, kind=None) -> Program | None appends ONE construct a careful compiler
         refuses and a careless one writes verbatim into its outputs (kinds: HYGIENE_KINDS; HYGIENE_LEGAL_IDENTIFIERS = those whose names are
         identifiers in all four languages); wellformed False, classes "hygiene", "hygiene/<kind>", expect {"outcome": "ok-or-refused",
@@ -194,7 +208,7 @@ RESERVED_FIELD_NAMES = ("type_id", "type_name", "type_hash", "type_source", "typ
                         "from_json", "copy", "pretty_print", "from_random", "get_field_raw", "from_buffer", "from_buffer_copy")
 OPT_IN = ("alias-of-imported-struct", "alias-of-imported-struct-field", "struct-contains-message", "string-special",
           "prefix-names", "zero-length", "long-names", "fractional-length", "reserved-field-name", "reserved-loose", "signed-char", "padding-field-name",
-          "inexact-div-length", "rich-operators", "many-symbols", "string-control")
+          "inexact-div-length", "rich-operators", "many-symbols", "string-control", "cross-namespace-names", "backend-literal-names")
 COVER_NAME_LENGTHS = [1, 2, 31, 32, 40, 45, 46, 47, 48, 63]
 MAX_NAME_LENGTH = 63  # MATLAB's namelengthmax
 MAX_SIZE = 65535
@@ -240,6 +254,16 @@ _STRING_WORDS = ["hello world", "rig_A", "v1", "left", "right", "calibration", "
 _STRING_SPECIAL = ['say "hi"', "back\\slash", "it's", "tab\\t", 'q"', "a # b", "50% done", "{curly}"]
 # real control characters (line break, tab, carriage return, form feed): legal content of a string constant
 _STRING_CONTROL = ["line1\nline2", "ends with a line break\n", "\nstarts with one", "col1\tcol2", "dos\r\nline", "two\n\nbreaks", 'q"\n"q', "50%\n\\n", "page\x0cbreak", "\t"]
+# texts of several lines whose lines look like YAML to a reader that goes through the file line by line (a colon glued to what follows:
+# host:port, a URL, a time, a drive letter; "key: value", "- item", "# comment", block / flow indicators, document markers, anchors, tags)
+# and leading / trailing blanks; at most 64 characters (the JavaScript extractor compares the first 64)
+_STRING_YAMLISH = ["usage: app [options]\n  --mm localhost:7111   address\n", "see http://host/path\nand C:\\dir", "12:30\n13:45", "maintainer: lab\nrig:2",
+                   "key: value\nother: 1", "- item one\n- item two", "# not a comment\nline # two", "  leading blanks\n  kept", "trailing blanks  \nkept  ",
+                   "|\nblock", ">\nfolded", "%TAG\n---\n...", "{a: 1}\n[b]", "*anchor\n&ref", "? q\n: a", "!tag\nx:y", "null\ntrue", "colon at end:\nnext",
+                   "a\n #b:c", "tab\there:glued\nx", "a\r\nb:c", "\x0cpage:1\n", "'single'\n\"double\":1", "\n:", "x:\n\n  y:z\n"]
+# the same look-alikes on ONE line (a plain or quoted scalar for the writer), and blanks at the ends
+_STRING_ONELINE = ["localhost:7111", "a:b", "key: value", " lead", "trail ", ":", ": ", " :", "colon at end:", "#", " # ", "a #b", "- item", "~", "yes", "1e3",
+                   "0x10", "{a: 1}", "[b]", "*anchor", "&ref", "!tag", "|", ">", "%TAG", "---", "? q", "@at", "`tick`", "http://host:80/p?q=1#frag"]
 _DIRS = ["", "common", "shared", "proj", "core_defs"]  # a user directory may well be called like the package's own one
 _FILEWORDS = ["base", "types", "hardware", "task", "decoder", "stim", "extra", "units", "robot", "logging"]
 
@@ -1407,8 +1431,10 @@ class _Builder:
         # string constants ----------------------------------------------------------------------------
         for _ in range(quota["string"]):
             name = self.fresh_name()
-            if "string-control" in self.allow and ch.chance(0.3):
-                add(Def("string", name, path, value=ch.cos.choice(_STRING_CONTROL), flags=["string-const", "string-control"], style={"quote": '"'}))
+            if "string-control" in self.allow and ch.chance(0.45):
+                pool = ch.weighted([(_STRING_CONTROL, 3), (_STRING_YAMLISH, 5), (_STRING_ONELINE, 2)])
+                fl = ["string-const", "string-control"] + (["string-yamlish"] if pool is not _STRING_CONTROL else [])
+                add(Def("string", name, path, value=ch.cos.choice(pool), flags=fl, style={"quote": '"'}))
             elif "string-special" in self.allow and ch.chance(0.3):
                 add(Def("string", name, path, value=ch.cos.choice(_STRING_SPECIAL), flags=["string-const", "string-special"],
                         style={"quote": "'"}))
@@ -1986,6 +2012,10 @@ def build_program(ch: Chooser, max_files: int = 6, min_files: int = 1, import_co
     probs = prog.problems()
     if probs:
         raise GeneratorBug("generated program is not well-formed: " + "; ".join(probs[:5]) + "\n" + json.dumps(prog.files, indent=1))
+    if "cross-namespace-names" in allow and ch.chance(0.8):
+        prog = add_cross_namespace_names(prog, ch) or prog
+    if "backend-literal-names" in allow and ch.chance(0.8):
+        prog = add_backend_literal_names(prog, ch) or prog
     if "fractional-length" in allow and ch.chance(0.7):
         prog = add_fractional_length(prog, ch) or prog
     if "reserved-field-name" in allow and prog.wellformed and ch.chance(0.7):
@@ -1994,6 +2024,272 @@ def build_program(ch: Chooser, max_files: int = 6, min_files: int = 1, import_co
         prog = add_padding_field_name(prog, ch) or prog
     if any("core_defs" in posixpath.dirname(s_.path).split("/") for s_ in prog.specs):
         prog.classes.add("dir-core_defs")
+    return prog
+
+
+# names are unique per NAMESPACE only: constants, string constants, aliases, structs and messages share one, module ids have their own and
+# host ids have their own.  What the closure (or the imported core definitions) calls X in one namespace may be called X in another.
+# kind of the new definition -> kinds whose names it may borrow.  A host id next to a constant / string constant / alias / struct of the
+# same name is NOT in this table: the Python module writes host ids under their bare name (see HYGIENE kind host-shares-name).
+CROSS_NAMESPACE = {
+    "module": ("message", "signal", "struct", "constant", "string", "alias", "host"),
+    "host": ("message", "signal", "module"),
+    "message": ("module", "host"),
+    "signal": ("module", "host"),
+    "struct": ("module",),
+    "constant": ("module",),
+    "string": ("module",),
+    "alias": ("module",),
+}
+
+
+def _core_names_by_kind() -> Dict[str, List[str]]:
+    core = core_defs()
+    from ruamel.yaml import YAML
+    import pyrtma
+
+    if "by_kind" not in core:
+        out: Dict[str, List[str]] = {"constant": sorted(core["constants"]), "string": sorted(core["string_constants"]), "alias": sorted(core["aliases"]),
+                                     "struct": sorted(core["struct_defs"]), "module": sorted(core["module_ids"]), "host": sorted(core["host_ids"]),
+                                     "message": [], "signal": []}
+        d = os.path.join(os.path.dirname(os.path.realpath(pyrtma.__file__)), "core_defs")
+        for fn in ("core_defs.yaml", "data_logger.yaml", "quick_logger.yaml"):
+            with open(os.path.join(d, fn)) as f:
+                data = YAML(typ="safe").load(f.read())
+            for n, m in (data.get("message_defs") or {}).items():
+                if n != "_RESERVED_":
+                    out["message" if m.get("fields") else "signal"].append(n)
+        core["by_kind"] = out
+    return core["by_kind"]
+
+
+def _simple_def(kind: str, name: str, path: str, ctx: "_Ctx", ch: Chooser, flags: Sequence[str]) -> Def:
+    """A small self-contained definition of ``kind`` called ``name`` (records are aligned without padding)."""
+    fl = list(flags)
+    if kind == "module":
+        return Def("module", name, path, value=ctx.fresh_mod_id(), flags=["module-id"] + fl)
+    if kind == "host":
+        return Def("host", name, path, value=ctx.fresh_host_id(), flags=["host-id"] + fl)
+    if kind == "constant":
+        v = ch.cos.choice([3, 5, 12, 40])
+        return Def("constant", name, path, value=v, text=str(v), flags=["const-int"] + fl)
+    if kind == "string":
+        return Def("string", name, path, value=ch.cos.choice(_STRING_WORDS), flags=["string-const"] + fl, style={"quote": '"'})
+    if kind == "alias":
+        return Def("alias", name, path, value=ch.choice(["int32", "double", "uint8", "int16"]), flags=["alias-native"] + fl)
+    if kind == "signal":
+        return Def("signal", name, path, id=ctx.fresh_msg_id(), flags=["signal"] + fl)
+    fields = ch.choice([
+        [FieldSpec("level", "int16", "int16"), FieldSpec("spare", "int16", "int16"), FieldSpec("count", "int32", "int32"), FieldSpec("when", "double", "double")],
+        [FieldSpec("a", "int32", "int32"), FieldSpec("b", "int32", "int32")],
+        [FieldSpec("when", "double", "double"), FieldSpec("text", "char[16]", "char", 16, "16")],
+        [FieldSpec("v", "float[4]", "float", 4, "4")],
+    ])
+    return Def(kind, name, path, id=ctx.fresh_msg_id() if kind == "message" else None, fields=copy.deepcopy(fields), flags=[kind] + fl)
+
+
+def add_cross_namespace_names(program: Program, ch: Chooser, n: Optional[int] = None) -> Optional[Program]:
+    """Copy of a well-formed program with 1-4 NEW definitions whose names are already in use in ANOTHER namespace of the closure
+    (names are unique per namespace: CROSS_NAMESPACE lists the accepted combinations): a module id called like a message, signal,
+    struct, constant, string constant, alias or host id; a host id called like a message, signal or module id; a message or signal
+    called like a module id or a host id; a struct, constant, string constant or alias called like a module id.  The borrowed name
+    belongs to a user definition or - with the core definitions imported, three times out of four - to a CORE definition (module id
+    RTMA_LOG / EXIT / MAX_MODULES / DATA_SET / LOCAL_HOST, message QUICK_LOGGER / DATA_LOGGER / MESSAGE_MANAGER / LOCAL_HOST, host id
+    TIMING_MESSAGE ...).  A new struct / message / alias is also used as a field type by one further new message.  The program stays
+    well-formed (Program.problems() is empty); classes "cross-namespace-names", "cross-namespace/<kind>-like-<other kind>" and
+    "cross-namespace/core" | "cross-namespace/user".  None when nothing could be added."""
+    q = program.clone()
+    ctx = _Ctx(q, ch)
+    core = _core_names_by_kind() if q.import_coredefs else {}
+    bare = {d.name for d in q.defs if d.kind in SHARED_KINDS or d.kind == "signal"} | (set(core_defs()["names"]) if core else set())
+    taken = {"module": {d.name for d in q.defs if d.kind == "module"} | set(core.get("module", ())),
+             "host": {d.name for d in q.defs if d.kind == "host"} | set(core.get("host", ()))}
+    added: List[Def] = []
+    classes: Set[str] = set()
+    want = n if n is not None else ch.integer(1, 4)
+    for _ in range(want * 4):
+        if len(added) >= want:
+            break
+        kind = ch.weighted([("module", 5), ("host", 3), ("message", 4), ("signal", 2), ("struct", 2), ("constant", 1), ("string", 1), ("alias", 1)])
+        use_core = bool(core) and ch.chance(0.75)
+        pool = []
+        for ok in CROSS_NAMESPACE[kind]:
+            names = core.get(ok, []) if use_core else [d.name for d in q.defs if d.kind == ok]
+            pool += [(nm, ok) for nm in names if re.fullmatch(r"[A-Za-z][A-Za-z0-9_]*", nm)]
+        own = taken[kind] if kind in taken else bare
+        # the Python module writes host ids under their bare name, like constants, string constants, aliases and structs: those five kinds
+        # must not share a name either (that combination is the hygiene kind "host-shares-name")
+        emitted_bare = {d.name for d in q.defs if d.kind in BARE_NAME_KINDS} | {nm for k in ("constant", "string", "alias", "struct", "host") for nm in core.get(k, ())}
+        if kind in BARE_NAME_KINDS:
+            own = own | emitted_bare
+        pool = [(nm, ok) for nm, ok in pool if nm not in own and not any(nm.startswith(pre) for pre in GENERATED_PREFIXES)]
+        if not pool:
+            continue
+        name, okind = ch.choice(pool)
+        spec = ch.choice(q.specs) if ch.chance(0.5) else q.spec(q.root)
+        snap = copy.deepcopy(q.specs)
+        d = _simple_def(kind, name, spec.path, ctx, ch, ["cross-namespace-names"])
+        spec.defs.append(d)
+        new = [d]
+        if kind in ("struct", "message", "alias") and ch.chance(0.6):
+            # used as a field type (scalar and array) by one more message of the same file
+            u = Def("message", ctx.fresh_name(), spec.path, id=ctx.fresh_msg_id(), flags=["message", "cross-namespace-names"],
+                    fields=[FieldSpec("head", "double", "double"), FieldSpec("one", name, name), FieldSpec("two", f"{name}[2]", name, 2, "2")])
+            if kind == "alias":
+                w = NATIVES[d.value]
+                u.fields = [FieldSpec("one", name, name), FieldSpec("more", f"{name}[{8 // w * 2 - 1}]", name, 8 // w * 2 - 1, str(8 // w * 2 - 1))]
+            spec.defs.append(u)
+            new.append(u)
+        q.rerender()
+        if q.problems():
+            q.specs = snap
+            q.rerender()
+            continue
+        (taken[kind] if kind in taken else bare).add(name)
+        added += new
+        classes |= {f"cross-namespace/{kind}-like-{okind}", "cross-namespace/core" if use_core else "cross-namespace/user"}
+    if not added:
+        return None
+    q.classes |= {"cross-namespace-names"} | classes
+    q.rerender()
+    return q
+
+
+# names the MATLAB back end writes itself after the user's definitions (obsolete core messages kept "for backwards compatibility":
+# RTMA.MT.MM_ERROR = 83, RTMA.MDF.MM_ERROR = '...') and the pseudo type of the JavaScript back end's type table ("string", used for
+# char arrays): neither is a core definition, a native type or a documented reserved word, so a user may define them
+MATLAB_LITERAL_MESSAGES = ("MM_ERROR", "MM_INFO", "DEBUG_TEXT")
+JS_PSEUDO_TYPES = ("string",)
+
+
+def add_backend_literal_names(program: Program, ch: Chooser, which: Optional[str] = None) -> Optional[Program]:
+    """Copy of a well-formed program with ONE new definition whose name a back end also writes literally into its output:
+      which == "matlab-message"  a message or signal called MM_ERROR, MM_INFO or DEBUG_TEXT (own id, own fields)
+      which == "js-type"         a struct, an alias (of a numeric native) or a message called ``string``, used as the type of a scalar
+                                 and of an array field of one more new message
+    Plain identifiers, no core names, no native types: the closure stays well-formed; classes "backend-literal-names",
+    "backend-literal/matlab-<kind>" / "backend-literal/js-<kind>".  None when the name is taken already."""
+    which = which or ch.choice(["matlab-message", "js-type"])
+    q = program.clone()
+    ctx = _Ctx(q, ch)
+    spec = ch.choice(q.specs) if ch.chance(0.5) else q.spec(q.root)
+    fl = ["backend-literal-names"]
+    if which == "matlab-message":
+        free = [n for n in MATLAB_LITERAL_MESSAGES if n not in ctx.names]
+        if not free:
+            return None
+        kind = ch.weighted([("message", 3), ("signal", 1)])
+        spec.defs.append(_simple_def(kind, ch.choice(free), spec.path, ctx, ch, fl))
+        cls = f"backend-literal/matlab-{kind}"
+    else:
+        name = JS_PSEUDO_TYPES[0]
+        if name in ctx.names:
+            return None
+        kind = ch.weighted([("struct", 3), ("alias", 2), ("message", 2)])
+        d = _simple_def(kind, name, spec.path, ctx, ch, fl)
+        if kind == "alias":
+            d.value = ch.choice(["int32", "double", "uint16"])
+        spec.defs.append(d)
+        ctx.names.add(name)
+        if kind == "alias":
+            w = NATIVES[d.value]
+            fields = [FieldSpec("one", name, name), FieldSpec("more", f"{name}[{8 // w * 2 - 1}]", name, 8 // w * 2 - 1, str(8 // w * 2 - 1))]
+        else:
+            fields = [FieldSpec("head", "double", "double"), FieldSpec("one", name, name), FieldSpec("two", f"{name}[2]", name, 2, "2")]
+        spec.defs.append(Def("message", ctx.fresh_name(), spec.path, id=ctx.fresh_msg_id(), flags=["message"] + fl, fields=fields))
+        cls = f"backend-literal/js-{kind}"
+    q.classes |= {"backend-literal-names", cls}
+    q.rerender()
+    return q if not q.problems() else None
+
+
+def build_cross_namespace_cover_program(import_coredefs: bool = True) -> Program:
+    """One well-formed closure (root + one imported file) with EVERY combination of CROSS_NAMESPACE: with the core definitions imported
+    the borrowed names are core names (module ids RTMA_LOG, EXIT, DATA_SET, MAX_MODULES, MODULE_ID, LOCAL_HOST; host ids TIMING_MESSAGE,
+    ACKNOWLEDGE, QUICK_LOGGER; message MESSAGE_MANAGER and signal ALL_HOSTS; struct / constant / string constant / alias called like the
+    core module ids and like user module ids), without them names of the closure's own definitions.  The new structs, messages and the
+    alias are used as field types.  Classes "cross-namespace-names", "cross-namespace/core"|"cross-namespace/user", "covering"."""
+    ch = FirstChooser()
+    lib = FileSpec(path="lib/ids.yaml")
+    root = FileSpec(path="root.yaml", imports=[["lib/ids.yaml", "lib/ids.yaml"]])
+    prog = Program([root, lib], "root.yaml", {"auto_pad": True, "validate_alignment": True, "import_coredefs": import_coredefs}, "chain",
+                   {"cross-namespace-names", "covering", "cross-namespace/core" if import_coredefs else "cross-namespace/user"})
+    F = FieldSpec
+    # plain user definitions of every kind (their names are borrowed below when the core is not imported)
+    lib.defs += [Def("constant", "U_CONST", lib.path, value=6, text="6"), Def("string", "U_TEXT", lib.path, value="rig_A", style={"quote": '"'}),
+                 Def("alias", "U_ALIAS", lib.path, value="int16"), Def("host", "U_HOST", lib.path, value=321), Def("module", "U_MODULE", lib.path, value=61),
+                 Def("module", "U_MODULE_B", lib.path, value=62), Def("module", "U_MODULE_C", lib.path, value=63), Def("module", "U_MODULE_D", lib.path, value=64),
+                 Def("module", "U_MODULE_E", lib.path, value=65), Def("host", "U_HOST_B", lib.path, value=322),
+                 Def("struct", "U_STRUCT", lib.path, fields=[F("a", "int32", "int32"), F("b", "int32", "int32")]),
+                 Def("message", "U_MESSAGE", lib.path, id=4801, fields=[F("t", "double", "double")]), Def("signal", "U_SIGNAL", lib.path, id=4802)]
+    if import_coredefs:
+        like = {"message": "RTMA_LOG", "signal": "EXIT", "struct": "DATA_SET", "constant": "MAX_MODULES", "alias": "MODULE_ID", "host": "LOCAL_HOST",
+                "module": "QUICK_LOGGER", "module2": "MESSAGE_MANAGER", "module3": "DATA_LOGGER", "host2": "ALL_HOSTS", "message2": "TIMING_MESSAGE", "signal2": "ACKNOWLEDGE"}
+    else:
+        like = {"message": "U_MESSAGE", "signal": "U_SIGNAL", "struct": "U_STRUCT", "constant": "U_CONST", "alias": "U_ALIAS", "host": "U_HOST",
+                "module": "U_MODULE", "module2": "U_MODULE_B", "module3": "U_MODULE_C", "host2": "U_HOST_B", "message2": "U_MESSAGE", "signal2": "U_SIGNAL"}
+    mods = iter(range(70, 90))
+    hosts = iter(range(400, 420))
+    ids = iter(range(4810, 4850))
+    # module ids called like a message, signal, struct, constant, alias, host id (and, user names only, a string constant)
+    for k in ("message", "signal", "struct", "constant", "alias", "host"):
+        root.defs.append(Def("module", like[k], root.path, value=next(mods), flags=["module-id", "cross-namespace-names"]))
+    root.defs.append(Def("module", "U_TEXT", root.path, value=next(mods), flags=["module-id", "cross-namespace-names"]))
+    # host ids called like a message, a signal, a module id
+    lib.defs.append(Def("host", like["message2"], lib.path, value=next(hosts), flags=["host-id", "cross-namespace-names"]))
+    root.defs.append(Def("host", like["signal2"], root.path, value=next(hosts), flags=["host-id", "cross-namespace-names"]))
+    root.defs.append(Def("host", like["module"], root.path, value=next(hosts), flags=["host-id", "cross-namespace-names"]))
+    # messages / signals called like a module id, a host id
+    lib.defs.append(Def("message", like["module2"], lib.path, id=next(ids), flags=["message", "cross-namespace-names"],
+                        fields=[F("level", "int16", "int16"), F("spare", "int16", "int16"), F("count", "int32", "int32"), F("when", "double", "double")]))
+    root.defs.append(Def("message", like["host"], root.path, id=next(ids), flags=["message", "cross-namespace-names"],
+                         fields=[F("when", "double", "double"), F("text", "char[16]", "char", 16, "16")]))
+    root.defs.append(Def("signal", like["module3"], root.path, id=next(ids), flags=["signal", "cross-namespace-names"]))
+    root.defs.append(Def("signal", like["host2"], root.path, id=next(ids), flags=["signal", "cross-namespace-names"]))
+    # struct, constant, string constant, alias called like a module id (user module ids: the core has only three)
+    root.defs.append(Def("struct", "U_MODULE_D", root.path, flags=["struct", "cross-namespace-names"], fields=[F("a", "int32", "int32"), F("b", "int32", "int32")]))
+    root.defs.append(Def("constant", "U_MODULE_E", root.path, value=3, text="3", flags=["const-int", "cross-namespace-names"]))
+    lib.defs.append(Def("string", "U_MODULE_B" if import_coredefs else "U_MODULE_D_TXT", lib.path, value="left", style={"quote": '"'}, flags=["string-const"]))
+    lib.defs.append(Def("alias", "U_MODULE_C" if import_coredefs else "U_MODULE_E_AL", lib.path, value="uint16", flags=["alias-native"]))
+    al = "U_MODULE_C" if import_coredefs else "U_MODULE_E_AL"
+    if not import_coredefs:  # the user-name variant borrows the user module ids for the string constant and the alias
+        root.defs.append(Def("module", "U_MODULE_D_TXT", root.path, value=next(mods), flags=["module-id", "cross-namespace-names"]))
+        root.defs.append(Def("module", "U_MODULE_E_AL", root.path, value=next(mods), flags=["module-id", "cross-namespace-names"]))
+    # and everything is used
+    root.defs.append(Def("message", "XN_USER", root.path, id=next(ids), flags=["message", "cross-namespace-names"],
+                         fields=[F("head", "double", "double"), F("m", like["module2"], like["module2"]), F("h", f"{like['host']}[2]", like["host"], 2, "2"),
+                                 F("s", "U_MODULE_D[U_MODULE_E]", "U_MODULE_D", 3, "U_MODULE_E"), F("al", f"{al}[4]", al, 4, "4")]))
+    prog.rerender()
+    probs = prog.problems()
+    if probs:
+        raise GeneratorBug("cross-namespace cover program is not well-formed: " + "; ".join(probs[:4]))
+    return prog
+
+
+def build_string_cover_program(import_coredefs: bool = False, part: Optional[int] = None, parts: int = 1) -> Program:
+    """One well-formed closure (root + one imported file) whose string constants are ALL texts of the generator's string vocabulary
+    (plain words, quotes / backslashes, control characters, texts of several lines whose lines look like YAML, one-line look-alikes)
+    - or the slice ``part`` of ``parts`` of them -, plus one message.  Classes "string-control", "string-yamlish", "string-special",
+    "covering"."""
+    texts = _STRING_WORDS[:2] + _STRING_SPECIAL + _STRING_CONTROL + _STRING_YAMLISH + _STRING_ONELINE
+    if part is not None:
+        texts = [t for i, t in enumerate(texts) if i % parts == part % parts]
+    lib = FileSpec(path="texts/help.yaml")
+    root = FileSpec(path="root.yaml", imports=[["texts/help.yaml", "texts/help.yaml"]])
+    for i, t in enumerate(texts):
+        s_ = lib if i % 2 else root
+        ctrl = re.search(r"[\x00-\x1f\x7f]", t) is not None
+        s_.defs.append(Def("string", f"TXT_{i:03d}", s_.path, value=t, style={"quote": '"' if ctrl or i % 3 else "'"},
+                           flags=["string-const", "string-control" if ctrl else "string-special"]))
+    root.defs.append(Def("message", "TXT_HOLDER", root.path, id=4870, flags=["message"], fields=[FieldSpec("a", "int32", "int32"), FieldSpec("b", "int32", "int32")]))
+    # free-form descriptions of the files: a metadata section (the header lines of a FileSpec are written verbatim) with a text of several lines
+    root.header = ["metadata:", '  DESCRIPTION: "Bench definitions\\nmaintainer:lab\\n  see http://host:80/p"', "  REVISION: 7", ""]
+    lib.header = ["metadata:", '  LIB_NOTE: "texts\\n- usage:x"', ""]
+    prog = Program([root, lib], "root.yaml", {"auto_pad": True, "validate_alignment": True, "import_coredefs": import_coredefs}, "chain",
+                   {"string-const", "string-control", "string-yamlish", "string-special", "covering"})
+    probs = prog.problems()
+    if probs:
+        raise GeneratorBug("string cover program is not well-formed: " + "; ".join(probs[:4]))
     return prog
 
 
@@ -2164,10 +2460,20 @@ HYGIENE_KINDS = (
     + ["field-named-like-descriptor/scalar", "field-named-like-descriptor/struct", "field-named-like-later-type/struct", "field-named-like-later-type/message",
        "field-named-like-python-keyword", "field-named-like-c-keyword", "constant-named-like-field/constant", "constant-named-like-field/string",
        "constant-named-like-field/imported"]
+    # a host id that shares its name with a constant / string constant / alias / struct (separate namespaces for the parser; ONE for the
+    # generated Python module, which writes all five under their bare name): of the closure itself, of the core definitions (host id
+    # MAX_MODULES, MODULE_ID, DATA_SET), or a user definition called like the core host ids LOCAL_HOST / ALL_HOSTS
+    + [f"host-shares-name/{k}" for k in ("constant", "string", "alias", "struct", "core-constant", "core-alias", "core-struct", "constant-like-core-host",
+                                         "string-like-core-host", "alias-like-core-host", "struct-like-core-host")]
 )
 # kinds whose names are identifiers in Python, C, JavaScript and MATLAB alike
 HYGIENE_LEGAL_IDENTIFIERS = tuple(k for k in HYGIENE_KINDS if k.split("/")[0] in ("const-nonfinite", "const-bool", "field-named-like-descriptor",
-                                                                                 "field-named-like-later-type", "constant-named-like-field"))
+                                                                                 "field-named-like-later-type", "constant-named-like-field", "host-shares-name"))
+
+
+def hygiene_needs_core(kind: str) -> bool:
+    """Kinds of add_hygiene that borrow a name from the core definitions (without them they fall back to their user-only sibling)."""
+    return kind.startswith("host-shares-name/") and "core" in kind
 
 
 def minimal_program(import_coredefs: bool = False) -> Program:
@@ -2303,6 +2609,34 @@ def add_hygiene(program: Program, ch: Chooser, kind: Optional[str] = None) -> Op
         else:
             q.spec(cfile).defs.append(cdef)
         info["name"] = fname
+    elif head == "host-shares-name":
+        core = _core_names_by_kind() if q.import_coredefs else {}
+        bkind = sub.split("-like-")[0]
+        bkind = bkind[5:] if bkind.startswith("core-") else bkind
+        if sub.startswith("core-") and core.get(bkind):
+            nm = ch.choice(core[bkind])  # a host id called like a core constant / alias / struct
+            new.append(Def("host", nm, path, value=ctx.fresh_host_id()))
+            if bkind == "constant":
+                mfields = [fs("seq", "int32"), fs("data", "int32[3]")]
+        else:
+            if sub.endswith("-like-core-host") and core.get("host"):
+                nm = ch.choice(core["host"])  # a user definition called like the core host id LOCAL_HOST / ALL_HOSTS
+            else:
+                nm = ctx.fresh_name()
+                new.append(Def("host", nm, path, value=ctx.fresh_host_id()))
+            if bkind == "constant":
+                new.append(Def("constant", nm, path, value=4, text="4"))
+                mfields = [fs("seq", "int32"), fs("data", f"int32[{nm}]")]
+                mfields[1].length = 4
+            elif bkind == "string":
+                new.append(Def("string", nm, path, value="some text", style={"quote": '"'}))
+            elif bkind == "alias":
+                new.append(Def("alias", nm, path, value="int32"))
+                mfields = [fs("seq", nm), fs("val", f"{nm}[3]")]
+            else:
+                new.append(Def("struct", nm, path, fields=[fs("a", "int32"), fs("b", "int32")]))
+                mfields = [fs("seq", "double"), fs("one", nm), fs("two", f"{nm}[2]")]
+        info["name"] = nm
     else:  # pragma: no cover
         raise ValueError(kind)
     new.append(Def("message", mname, path, id=ctx.fresh_msg_id(), fields=mfields, flags=["message", "hygiene"]))
